@@ -169,9 +169,14 @@ class Builder:
             if entries is None:
                 return self._note(schema.dict, t)
             d = {}
-            for key, opt, sub in entries:
+            # relaxed: True puts `...: ...` last; "first" / "mid" put it first / after the first key
+            if relaxed == "first":
+                d[E] = E
+            for i, (key, opt, sub) in enumerate(entries):
                 d[optional(key) if opt else key] = self.build(sub)
-            if relaxed:
+                if relaxed == "mid" and i == 0:
+                    d[E] = E
+            if relaxed and E not in d:
                 d[E] = E
             s = schema.dict(d)
             if not self.leave_args:
@@ -370,7 +375,11 @@ def show(t):
             return "dict"
         items = [(f"optional({src(key)})" if opt else src(key)) + ": " + show(sub)
                  for key, opt, sub in t[1]]
-        if t[2]:
+        if t[2] == "first":
+            items.insert(0, "...: ...")
+        elif t[2] == "mid" and items:
+            items.insert(1, "...: ...")
+        elif t[2]:
             items.append("...: ...")
         return "dict({" + ", ".join(items) + "})"
     if k == "any":
